@@ -365,6 +365,9 @@ func (a *Application) handleNonStreamingBackendError(
 		"status_code", recorder.status,
 		"translator", trans.Name())
 
+	// the client sees this request fail, it must not count as a success in the metrics
+	pr.hadError = true
+
 	errorMsg := a.extractAndLogBackendError(openaiResp, recorder.status, pr, trans)
 
 	// copy observability headers before writing error
